@@ -34,6 +34,7 @@ type recStore struct {
 	mirror map[string][]byte
 	log    []storeEv
 	rec    bool
+	fail   bool // every Write / Remove fails (a storage outage), nothing is stored
 }
 
 type storeEv struct {
@@ -47,6 +48,9 @@ func newRecStore() *recStore {
 }
 
 func (s *recStore) Write(ctx context.Context, key string, body []byte, o *storage.Options) error {
+	if s.fail {
+		return errors.New("storage outage")
+	}
 	c := append([]byte{}, body...)
 	s.mirror[key] = c
 	if s.rec {
@@ -56,6 +60,9 @@ func (s *recStore) Write(ctx context.Context, key string, body []byte, o *storag
 }
 
 func (s *recStore) Remove(ctx context.Context, key string) error {
+	if s.fail {
+		return errors.New("storage outage")
+	}
 	_, had := s.mirror[key]
 	delete(s.mirror, key)
 	if s.rec && had {
@@ -679,6 +686,12 @@ func (s *state) step(line string) string {
 			res = append(res, fmt.Sprintf("%d:%s", k, info))
 		}
 		return fmt.Sprintf("%s => %s %s ev=%s p=%s", op, out, s.tip(), hx.List(kinds), hx.List(res))
+	case "storefail":
+		// a storage outage: every write and removal fails until it is switched off (not modelled: the
+		// driver stops comparing, the monitor goes on evaluating the properties)
+		v, _ := a.Int("on")
+		s.store.fail = v != 0
+		return op + " => ok"
 	case "subscribe":
 		s.subs = append(s.subs, s.repo.GetNewHeadersAvailableChannel())
 		return op + " => ok"
